@@ -5,6 +5,7 @@ import (
 	"bytes"
 	"errors"
 	"fmt"
+	"io"
 	"strings"
 
 	gots "github.com/Comcast/gots/v2"
@@ -121,9 +122,11 @@ func mkPred(r *gen.Rand) pred {
 		T := r.Intn(900)
 		lo := r.Intn(700)
 		hi := lo + 1 + r.Intn(250)
-		return pred{fmt.Sprintf("len >= %d, error while %d <= len < %d", T, lo, hi), func(b []byte) (bool, error) {
+		// the predicate's error is its own business; it may even be one of the library's own sentinels
+		e := []error{errPred, errPred, gots.ErrAccumulatorDone, gots.ErrNoPayloadUnitStartIndicator, gots.ErrNoPayload, io.EOF}[r.Intn(6)]
+		return pred{fmt.Sprintf("len >= %d, error %q while %d <= len < %d", T, e, lo, hi), func(b []byte) (bool, error) {
 			if len(b) >= lo && len(b) < hi {
-				return false, errPred
+				return false, e
 			}
 			return len(b) >= T, nil
 		}}
